@@ -103,7 +103,8 @@ def _expr(draw, depth, bound):
             cond = f"({lookup(t2)} if {draw(_expr(d, bound))} else {lookup(t2)})"
             return draw(st.sampled_from([f"({first}, {cond})", f"({cond}, {first})", cond, f"[{first}, {cond}]"]))
         if k == 5:  # ifexp with constants (exact predictions)
-            a, b = draw(st.sampled_from([("1", "2"), ("1.5", "2"), ("'a'", "'b'"), ("'a'", "1"), ("True", "False"), ("1", "'x'"), ("b'a'", "b'b'")]))
+            a, b = draw(st.sampled_from([("1", "2"), ("1.5", "2"), ("'a'", "'b'"), ("'a'", "1"), ("True", "False"), ("1", "'x'"), ("b'a'", "b'b'"),
+                                            ("('a' + 'b')", "'c'"), ("'c'", "('a' + 'b')"), ("(1 + 2)", "3"), ("(1 + 2)", "1.5"), ("(True + True)", "2")]))
             return f"({a} if {draw(_expr(d, bound))} else {b})"
     return draw(_UntypedAdapter(depth, bound))
 
@@ -240,6 +241,13 @@ def _known_type(n):
         return type(n.value) if n.value is not None and n.value is not Ellipsis else None
     if isinstance(n, (ast.Compare, ast.BoolOp)) or (isinstance(n, ast.UnaryOp) and isinstance(n.op, ast.Not)):
         return bool
+    if isinstance(n, ast.BinOp):
+        ta, tb = _known_type(n.left), _known_type(n.right)
+        if ta is str and tb is str and isinstance(n.op, ast.Add):
+            return str  # two strings joined
+        if ta is not None and tb is not None and {ta, tb} <= {int, float, bool}:
+            return float if (float in (ta, tb) or isinstance(n.op, ast.Div)) else int
+        return None
     if _evidently_untyped(n):
         return ANY  # nothing can be known about it on a stream without type information: compatible with itself and with numbers
     if isinstance(n, (ast.Subscript, ast.Attribute)) and isinstance(n.value, ast.Dict):
